@@ -276,7 +276,29 @@ class Gen:
     def _top_lambda_uses(self, s):
         return True
 
-    def lam(self, env, x, et, depth, ty):
+    def _srcs_in(self, q, acc=None):
+        acc = [] if acc is None else acc
+        if isinstance(q, dict):
+            if q.get("k") in ("sub", "key") and isinstance(q.get("a"), dict) and q["a"].get("k") == "var":
+                acc.append(json.dumps(q, sort_keys=True))
+            for v in q.values():
+                self._srcs_in(v, acc)
+        elif isinstance(q, list):
+            for v in q:
+                self._srcs_in(v, acc)
+        return acc
+
+    def lam(self, env, x, et, depth, ty, over=None):
+        # `over`: the sequence this lambda ranges over. A component of a tuple of collections that is being traversed
+        # must not be traversed again inside its own loop (listed defect: self-join through one shared node).
+        opened = self._srcs_in(over) if over is not None else []
+        self.open_srcs = getattr(self, "open_srcs", []) + opened
+        try:
+            return self._lam(env, x, et, depth, ty)
+        finally:
+            self.open_srcs = self.open_srcs[: len(self.open_srcs) - len(opened)]
+
+    def _lam(self, env, x, et, depth, ty):
         # `in_lam` > 0: inside the body of a projection / predicate. An index expression there is evaluated by the
         # generated code only where its value is consumed (Count() or First() of the projection do not evaluate it
         # for every element) while the reference semantics maps the body over all elements: whether a bad index in
@@ -305,7 +327,12 @@ class Gen:
         has_event = any(t == "event" for _, t in env)
         choices = ["coll", "coll"] if has_event else []
         objs = self.objs_in(env)
-        if not has_event and not objs:
+        srcs = [t for _, t in env if isinstance(t, tuple) and t[0] == "seqsrc"]  # components of a tuple / dict of collections
+        if self.strict:
+            srcs = [t for t in srcs if json.dumps(t[1], sort_keys=True) not in getattr(self, "open_srcs", [])]
+        if srcs:
+            choices += ["seqsrc"] * 3
+        if not has_event and not objs and not srcs:
             raise ValueError("no sequence source in scope")
         if objs:
             choices += ["kids", "vs", "vs"] if want != "obj" else ["kids", "kids"]
@@ -314,13 +341,24 @@ class Gen:
             if not self.strict:
                 choices += ["selectmany"]
         c = r.choice(choices)
+        if c == "seqsrc":
+            import copy
+
+            _, expr, et0 = r.choice(srcs)
+            self.op("seqsrc")
+            if want == "num":
+                x = self.fresh()
+                self.op("Select")
+                tt = r.choice(NUM)
+                return {"k": "Select", "s": copy.deepcopy(expr), "x": x, "f": self.lam(env, x, et0, max(depth - 1, 0), tt, over=expr)}, tt
+            return copy.deepcopy(expr), et0
         if want == "num" and c in ("coll", "kids"):
             # turn a sequence of objects into a sequence of numbers
             s, et = self.seq(env, depth - 1 if depth > 0 else 0, "obj")
             x = self.fresh()
             self.op("Select")
             tt = "double" if et == "double" else r.choice(NUM)
-            return {"k": "Select", "s": s, "x": x, "f": self.lam(env, x, et, max(depth - 1, 0), tt)}, tt
+            return {"k": "Select", "s": s, "x": x, "f": self.lam(env, x, et, max(depth - 1, 0), tt, over=s)}, tt
         if c == "coll":
             return self.coll(env)
         if c == "kids":
@@ -338,12 +376,12 @@ class Gen:
                 return s, et
             ty = "double" if et == "double" else r.choice(NUM)
             self.op("Select")
-            return {"k": "Select", "s": s, "x": x, "f": self.lam(env, x, et, depth - 1, ty)}, ty
+            return {"k": "Select", "s": s, "x": x, "f": self.lam(env, x, et, depth - 1, ty, over=s)}, ty
         if c == "where":
             s, et = self.seq(env, depth - 1, want)
             x = self.fresh()
             self.op("Where")
-            return {"k": "Where", "s": s, "x": x, "f": self.lam(env, x, et, depth - 1, "bool")}, et
+            return {"k": "Where", "s": s, "x": x, "f": self.lam(env, x, et, depth - 1, "bool", over=s)}, et
         if c == "selectmany":
             s, et = self.seq(env, depth - 1, "obj")
             if not (isinstance(et, tuple) and et[0] == "obj"):
@@ -540,7 +578,7 @@ class Gen:
             if isinstance(et, tuple):
                 x = self.fresh()
                 self.op("Select")
-                s = {"k": "Select", "s": s, "x": x, "f": self.lam(env, x, et, max(depth - 1, 0), r.choice(["int", "double"]))}
+                s = {"k": "Select", "s": s, "x": x, "f": self.lam(env, x, et, max(depth - 1, 0), r.choice(["int", "double"]), over=s)}
             elif self.strict and not self._top_lambda_uses(s):
                 pass
             return s, 1
@@ -604,7 +642,7 @@ class Gen:
     def top(self):
         r = self.rng
         d = r.randint(1, self.max_depth)
-        form = r.choice(["select", "select", "select", "where_select", "selectmany", "selectmany", "selectmany_where", "two_step", "selectmany2"])
+        form = r.choice(["select", "select", "select", "where_select", "selectmany", "selectmany", "selectmany_where", "two_step", "selectmany2", "two_step_tuple"])
         e = self.fresh("e")
         env = [(e, "event")]
         ds = {"k": "ds"}
@@ -616,6 +654,35 @@ class Gen:
             cond = self.scalar(env, d, "bool")
             b, names = self.body([(e2, "event")], d)
             return {"k": "Select", "s": {"k": "Where", "s": ds, "x": e, "f": cond}, "x": e2, "f": b}, names, form
+        if form == "two_step_tuple":
+            # the common idiom: first select a tuple / dict of collections, then build the row from its components
+            n = r.randint(2, 3)
+            comps = []
+            for _ in range(n):
+                sc, et = self.coll(env)
+                if r.random() < 0.3:
+                    x0 = self.fresh()
+                    self.op("Where")
+                    sc = {"k": "Where", "s": sc, "x": x0, "f": self.lam([], x0, et, 1, "bool")}
+                comps.append((sc, et))
+            t = self.fresh("t")
+            if r.random() < 0.5:
+                self.op("tuple")
+                first = {"k": "tuple", "es": [c for c, _ in comps]}
+                env2 = [(f"{t}#{i}", ("seqsrc", {"k": "sub", "a": {"k": "var", "n": t}, "i": i}, et)) for i, (_, et) in enumerate(comps)]
+            else:
+                self.op("dict")
+                ks = [f"c{i}" for i in range(n)]
+                first = {"k": "dict", "ks": ks, "es": [c for c, _ in comps]}
+                env2 = [(f"{t}#{i}", ("seqsrc", {"k": "key", "a": {"k": "var", "n": t}, "key": ks[i]}, et)) for i, (_, et) in enumerate(comps)]
+            src = {"k": "Select", "s": ds, "x": e, "f": first}
+            if r.random() < 0.3:
+                tw = self.fresh("t")
+                envw = [(nm.replace(t, tw), ("seqsrc", json.loads(json.dumps(ex).replace(f'"n": "{t}"', f'"n": "{tw}"')), et)) for nm, (_, ex, et) in env2]
+                self.op("Where")
+                src = {"k": "Where", "s": src, "x": tw, "f": self.scalar(envw, 1, "bool")}
+            b, names = self.body(env2, d)
+            return {"k": "Select", "s": src, "x": t, "f": b}, names, form
         if form == "selectmany2":
             # rows per inner element of a two-level SelectMany, with columns from the inner AND the enclosing object
             sc, et = self.coll(env)
@@ -710,11 +777,50 @@ def _uses_var(q: Any, x: str) -> bool:
     return False
 
 
-def ops_used_live(q: Any, acc: Optional[Dict[str, int]] = None, dead_elem: bool = False) -> Dict[str, int]:
+def dead_nodes(q: Any) -> set:
+    """ids of sub-queries that are never translated: components of a first-step tuple / dict of collections that no
+    later step refers to (`Select(ds, e -> (a, b, c)).Select(t -> t[2]…)` never looks at a and b)."""
+    chain, cur = [], q
+    while isinstance(cur, dict) and cur.get("k") in ("Select", "Where", "SelectMany"):
+        chain.append(cur)
+        cur = cur.get("s")
+    if not chain or not (isinstance(cur, dict) and cur.get("k") == "ds"):
+        return set()
+    first = chain[-1]
+    body = first.get("f")
+    if first.get("k") != "Select" or not isinstance(body, dict) or body.get("k") not in ("tuple", "dict") or len(chain) < 2:
+        return set()
+    used, whole = set(), [False]
+
+    def scan(n, var):
+        if isinstance(n, dict):
+            if n.get("k") in ("sub", "key") and isinstance(n.get("a"), dict) and n["a"].get("k") == "var" and n["a"].get("n") == var:
+                used.add(n["i"] if n["k"] == "sub" else body.get("ks", []).index(n["key"]) if n["key"] in body.get("ks", []) else -1)
+                return
+            if n.get("k") == "var" and n.get("n") == var:
+                whole[0] = True
+            for v in n.values():
+                scan(v, var)
+        elif isinstance(n, list):
+            for v in n:
+                scan(v, var)
+
+    for c in chain[:-1]:
+        scan(c.get("f"), c.get("x"))
+    if whole[0]:
+        return set()
+    return {id(e) for i, e in enumerate(body["es"]) if i not in used}
+
+
+def ops_used_live(q: Any, acc: Optional[Dict[str, int]] = None, dead_elem: bool = False, skip: Optional[set] = None) -> Dict[str, int]:
     """`ops_used` restricted to LIVE positions: the element expression of a sequence whose consumer ignores its
     variable (`.Select(lambda x: 2.5)`) is never translated (nor evaluated by the query), so operators in it do not count."""
     acc = {} if acc is None else acc
+    if skip is None:
+        skip = dead_nodes(q)
     if isinstance(q, dict):
+        if id(q) in skip:
+            return acc
         k = q.get("k")
         if k in ("bin", "cmp"):
             acc[q["op"]] = acc.get(q["op"], 0) + 1
@@ -729,14 +835,14 @@ def ops_used_live(q: Any, acc: Optional[Dict[str, int]] = None, dead_elem: bool 
                     pass_dead = dead_elem or ignores
                 else:
                     pass_dead = ignores
-                ops_used_live(v, acc, pass_dead)
+                ops_used_live(v, acc, pass_dead, skip)
             elif key == "f" and k == "Select" and dead_elem:
                 continue
             else:
-                ops_used_live(v, acc)
+                ops_used_live(v, acc, False, skip)
     elif isinstance(q, list):
         for v in q:
-            ops_used_live(v, acc)
+            ops_used_live(v, acc, False, skip)
     return acc
 
 
